@@ -46,13 +46,15 @@
                                                  under-reports a segment that straddles shared and own commands;
                                                  the responder sends lowest max cuts first and truncates at 100
                                                  commands / 100 segments / max cut + 100)
-          C16:dup-only-session:>=100-duplicates-covered-via-midsegment-prior   as above, but the duplicates are
-                                                 ancestors of a located sample address in another segment: the
-                                                 responder queued their segment from its uncovered head and dropped
-                                                 the coverage that arrived through a prior pointing into the middle
-                                                 of it (find_needed_segments / TraversalQueue::push_covered ignores
-                                                 a lower max cut); storage-level observations inseg_ok/straddled
-                                                 are logged by the engine
+          C16:dup-only-session:>=100-duplicates-covered-via-midsegment-prior   as above, but (some of) the duplicates
+                                                 are ancestors of a located sample address that lies in *another*
+                                                 segment (inseg_ok: in its own segment no located sample address is at
+                                                 or above a received command): the responder queued a segment from its
+                                                 uncovered head and dropped the coverage that arrived through a prior
+                                                 pointing into the middle of it (find_needed_segments /
+                                                 TraversalQueue::push_covered ignores a lower max cut), after which the
+                                                 segments below are traversed as uncovered too; `inseg_ok` is a
+                                                 storage-level observation logged by the engine
      C16:commit                commit failed, or the committed set is not old + received
      C16:not-converged         the session loop stopped with commands missing
           :req-heads>100                         ... after sessions of the wide-requester class (livelock)
@@ -167,8 +169,7 @@ NoProgressKey(ev) ==
      ELSE IF dupOnly /\ Cardinality(sess.recv) >= 100 /\ ev.inseg_ok
                /\ sess.reqheads \subseteq UpClosure(sess.sample, sess.sample)
           THEN (IF sess.recv \cap covered = {} THEN "C16:dup-only-session:>=100-uncovered-duplicates"
-                ELSE IF ev.straddled THEN "C16:dup-only-session:>=100-duplicates-covered-via-midsegment-prior"
-                ELSE "C16:no-progress")
+                ELSE "C16:dup-only-session:>=100-duplicates-covered-via-midsegment-prior")
      ELSE "C16:no-progress"
 
 Close(ev) ==
